@@ -28,6 +28,7 @@ import (
 	"sync"
 	"testing"
 	"testing/synctest"
+	"time"
 
 	"github.com/ollama/ollama/api"
 	"github.com/ollama/ollama/zzverif"
@@ -470,4 +471,496 @@ func TestVerifC09Legacy(t *testing.T) {
 		out.Count("cases")
 		out.Count("legacy_cases")
 	}
+}
+
+// ---------------------------------------------------------------------------------------------
+// Two pushes sharing one upload through blobUploadManager.  Push A opens the upload session; the
+// scripted registry HOLDS that POST until push B (same layer) has done its own HEAD and joined the
+// published upload (LoadOrStore hit → Wait), then the POST ends in every way (any answer chain,
+// transport error, A's context ending), optionally B's context ends while the POST is outstanding;
+// the one transfer then runs its PATCH and commit tries.  A joined push that is never told anything
+// (Prepare failed: neither done nor err is ever set) polls until its context ends; the driver ends
+// it after 30 fake minutes.
+
+type c09ShReg struct {
+	mu      sync.Mutex
+	s       *c09ShScript
+	heads   int
+	gate    chan string // "go" | "transport"
+	posts   int
+	pi      int
+	at, ct  int
+	ai, ci  int
+	ma, mb  int
+	logA    []string
+	logB    []string
+	logT    []string
+	global  []string // "<who>:<event>"
+	unknown []string
+}
+
+type c09ShScript struct {
+	headB         []c09LResp
+	post          []c09LResp
+	postEnd       string // ans | transport | ownercancel
+	cancelB       bool
+	patch, commit [][]c09LResp
+	manA, manB    []c09LResp
+}
+
+func (r *c09ShReg) log(who string, e c09LegEvent) {
+	s := e.String()
+	switch who {
+	case "A":
+		r.logA = append(r.logA, s)
+	case "B":
+		r.logB = append(r.logB, s)
+	default:
+		r.logT = append(r.logT, s)
+	}
+	r.global = append(r.global, who+":"+s)
+}
+
+func (r *c09ShReg) RoundTrip(req *http.Request) (*http.Response, error) {
+	if req.Body != nil {
+		io.Copy(io.Discard, req.Body)
+		req.Body.Close()
+	}
+	if req.URL.Host == "" {
+		return nil, fmt.Errorf("http: no Host in request URL")
+	}
+	if err := req.Context().Err(); err != nil {
+		return nil, context.Cause(req.Context())
+	}
+	p := req.URL.Path
+	from := req.URL.Query().Get("from")
+	answer := func(a c09LResp, next string) (*http.Response, error) {
+		hdr := map[string]string{}
+		if a.loc {
+			hdr["Location"] = next
+		}
+		return c09LegResp(req, a.status, hdr), nil
+	}
+	r.mu.Lock()
+	switch {
+	case strings.Contains(p, "/manifests/"):
+		who, script, idx := "A", r.s.manA, &r.ma
+		if strings.Contains(p, "/pb/") || strings.HasSuffix(p, "/b") {
+			who, script, idx = "B", r.s.manB, &r.mb
+		}
+		a := c09LNext(script, idx)
+		r.log(who, c09LegEvent{-1, "", req.Method, a.status})
+		next := fmt.Sprintf("http://example.com%s?hop=%d", p, *idx)
+		r.mu.Unlock()
+		return answer(a, next)
+	case strings.Contains(p, "/blobs/sha256:"): // a HEAD exchange: the first one is A's
+		if from == "" {
+			r.heads++
+		}
+		if r.heads == 1 {
+			r.log("A", c09LegEvent{0, "h", req.Method, 404})
+			r.mu.Unlock()
+			return answer(c09LResp{404, false}, "")
+		}
+		var i int
+		fmt.Sscanf(req.URL.Query().Get("hop"), "%d", &i)
+		a := c09LResp{200, false}
+		if i < len(r.s.headB) {
+			a = r.s.headB[i]
+		}
+		r.log("B", c09LegEvent{0, "h", req.Method, a.status})
+		next := fmt.Sprintf("http://example.com%s?from=h&hop=%d", p, i+1)
+		r.mu.Unlock()
+		return answer(a, next)
+	case strings.HasSuffix(p, "/blobs/uploads/") && from == "": // the session POST: held
+		r.posts++
+		if r.posts > 1 {
+			r.unknown = append(r.unknown, "a second upload session was opened: "+req.URL.String())
+		}
+		r.mu.Unlock()
+		select {
+		case g := <-r.gate:
+			r.mu.Lock()
+			if g == "transport" {
+				r.log("T", c09LegEvent{0, "p", req.Method, 0})
+				r.mu.Unlock()
+				return nil, fmt.Errorf("verif: dial tcp: transport failure")
+			}
+		case <-req.Context().Done():
+			r.mu.Lock()
+			r.log("T", c09LegEvent{0, "p", req.Method, 0})
+			r.mu.Unlock()
+			return nil, context.Cause(req.Context())
+		}
+		a := c09LNext(r.s.post, &r.pi)
+		r.log("T", c09LegEvent{0, "p", req.Method, a.status})
+		next := fmt.Sprintf("http://example.com/upload/0?from=p&hop=%d", r.pi)
+		r.mu.Unlock()
+		return answer(a, next)
+	case strings.HasPrefix(p, "/upload/"):
+		kind := "p"
+		var a c09LResp
+		var next string
+		if req.Method == "PATCH" {
+			kind = "a"
+			r.at++
+			r.ai = 0
+		}
+		if kind == "p" {
+			a = c09LNext(r.s.post, &r.pi)
+			next = fmt.Sprintf("http://example.com/upload/0?from=p&hop=%d", r.pi)
+		} else {
+			var s []c09LResp
+			if r.at-1 < len(r.s.patch) {
+				s = r.s.patch[r.at-1]
+			}
+			a = c09LNext(s, &r.ai)
+			next = fmt.Sprintf("http://example.com/commit/0?from=a&hop=%d", r.ai)
+		}
+		r.log("T", c09LegEvent{0, kind, req.Method, a.status})
+		r.mu.Unlock()
+		return answer(a, next)
+	case strings.HasPrefix(p, "/commit/"):
+		kind := "c"
+		switch {
+		case from == "a" && req.Method == "PUT":
+			r.ct++
+			r.ci = 0
+		case from == "a":
+			kind = "a"
+		}
+		var a c09LResp
+		var next string
+		if kind == "a" {
+			var s []c09LResp
+			if r.at-1 < len(r.s.patch) {
+				s = r.s.patch[r.at-1]
+			}
+			a = c09LNext(s, &r.ai)
+			next = fmt.Sprintf("http://example.com/commit/0?from=a&hop=%d", r.ai)
+		} else {
+			var s []c09LResp
+			if r.ct-1 < len(r.s.commit) {
+				s = r.s.commit[r.ct-1]
+			}
+			a = c09LNext(s, &r.ci)
+			next = fmt.Sprintf("http://example.com/commit/0?from=c&hop=%d", r.ci)
+		}
+		r.log("T", c09LegEvent{0, kind, req.Method, a.status})
+		r.mu.Unlock()
+		return answer(a, next)
+	}
+	r.unknown = append(r.unknown, req.Method+" "+req.URL.String())
+	r.mu.Unlock()
+	return c09LegResp(req, 400, nil), nil
+}
+
+func c09SharedCase(t *testing.T, out *zzverif.Out, rng *zzverif.Rng, dir, tag string, idx int, strict bool) {
+	t.Setenv("OLLAMA_MODELS", dir)
+	no401 := func(r c09LResp) bool { return r.status == 401 }
+	noPost := func(r c09LResp) bool { return r.status == 401 || r.status == 201 }
+	noPatch := func(r c09LResp) bool { return r.status == 401 || r.status == 307 }
+	absent, opened, stored := c09LResp{404, false}, c09LResp{202, true}, c09LResp{201, false}
+	s := &c09ShScript{headB: []c09LResp{absent}, post: []c09LResp{opened}, postEnd: "ans", patch: [][]c09LResp{{opened}}}
+	nEx := len(c09LStatuses) * 2
+	switch {
+	case idx < nEx: // every first answer to the held session POST
+		first := c09LResp{c09LStatuses[idx/2], idx%2 == 1}
+		if !noPost(first) {
+			s.post = []c09LResp{first, opened}
+		}
+		out.Count("shared_exhaustive_post_answer")
+	case idx == nEx:
+		s.postEnd = "transport"
+	case idx == nEx+1:
+		s.postEnd = "ownercancel"
+	case idx == nEx+2:
+		s.cancelB = true
+	default:
+		switch rng.Intn(10) {
+		case 0:
+			s.postEnd = "transport"
+		case 1:
+			s.postEnd = "ownercancel"
+		case 2, 3, 4, 5:
+			s.post = c09LGen(rng, []c09LResp{opened, {500, false}, {503, false}, {404, false}, {403, false}, {202, false}, {304, true}}, noPost)
+		}
+		s.cancelB = rng.Chance(1, 8)
+		if rng.Chance(1, 5) {
+			s.headB = c09LGen(rng, []c09LResp{absent, absent, {200, false}, {500, false}, {304, false}}, no401)
+		}
+		if rng.Chance(1, 3) {
+			s.patch = nil
+			for k := rng.Range(1, 7); k > 0; k-- {
+				s.patch = append(s.patch, c09LGen(rng, []c09LResp{opened, {500, false}, {503, false}, {202, false}}, noPatch))
+			}
+		}
+		if rng.Chance(1, 3) {
+			for k := rng.Range(1, 7); k > 0; k-- {
+				s.commit = append(s.commit, c09LGen(rng, []c09LResp{stored, {500, false}, {404, false}, {304, false}}, no401))
+			}
+		}
+		if rng.Chance(1, 6) {
+			s.manA = c09LGen(rng, []c09LResp{{200, false}, {500, false}}, no401)
+		}
+		if rng.Chance(1, 6) {
+			s.manB = c09LGen(rng, []c09LResp{{201, false}, {500, false}}, no401)
+		}
+	}
+	if s.cancelB && s.postEnd == "ans" && os.Getenv("VERIF_C09_RUNCANCEL_SAFE") != "1" {
+		// B leaving while it is the only waiter cancels the upload's run context; if A's POST then
+		// succeeds, blobUpload.Run skips its parts and dereferences a nil part hash: the process
+		// dies (finding F19, shown by TestVerifC09SharedCancelCrash in a process of its own).  On such
+		// a tree the joined push is only cancelled when the session POST fails.
+		s.post = []c09LResp{{zzverif.Pick(rng, []int{500, 503, 403, 404}), false}}
+	}
+	out.Count("shared_post_" + s.postEnd)
+	if s.cancelB {
+		out.Count("shared_joined_push_cancelled_during_post")
+	}
+	// two models with the same single layer: different repositories, or two tags of one
+	nameA, nameB := "example.com/library/pa:latest", "example.com/library/pb:latest"
+	if rng.Bool() {
+		nameA, nameB = "example.com/library/px:a", "example.com/library/px:b"
+		out.Count("shared_same_repository")
+	}
+	data := append([]byte("shared-"), rng.Bytes(rng.Range(1, 30))...)
+	dig := c09LegacyBlob(t, dir, data)
+	m := &Manifest{SchemaVersion: 2, Layers: []Layer{{MediaType: "application/vnd.ollama.image.model", Digest: dig, Size: int64(len(data))}}}
+	for _, name := range []string{nameA, nameB} {
+		fp, err := ParseModelPath(name).GetManifestPath()
+		if err != nil {
+			t.Fatal(err)
+		}
+		os.MkdirAll(filepath.Dir(fp), 0o755)
+		mdata, _ := json.Marshal(m)
+		if err := os.WriteFile(fp, mdata, 0o644); err != nil {
+			t.Fatal(err)
+		}
+	}
+	reg := &c09ShReg{s: s}
+	old := http.DefaultTransport
+	http.DefaultTransport = reg
+	defer func() { http.DefaultTransport = old }()
+	var errA, errB error
+	hung := false
+	synctest.Test(t, func(t *testing.T) {
+		reg.gate = make(chan string, 1)
+		ctxA, cancelA := context.WithCancel(context.Background())
+		ctxB, cancelB := context.WithCancel(context.Background())
+		defer cancelA()
+		defer cancelB()
+		doneA, doneB := make(chan struct{}), make(chan struct{})
+		push := func(ctx context.Context, name string, err *error, done chan struct{}) {
+			defer close(done)
+			*err = PushModel(ctx, name, &registryOptions{Insecure: true}, func(api.ProgressResponse) {})
+		}
+		go push(ctxA, nameA, &errA, doneA)
+		synctest.Wait() // A sits in the held session POST
+		go push(ctxB, nameB, &errB, doneB)
+		synctest.Wait() // B has done its HEAD and joined A's upload (or finished on its own)
+		if s.cancelB {
+			cancelB()
+			synctest.Wait()
+		}
+		switch s.postEnd {
+		case "ownercancel":
+			cancelA()
+		case "transport":
+			reg.gate <- "transport"
+		default:
+			reg.gate <- "go"
+		}
+		for _, d := range []chan struct{}{doneA, doneB} {
+			select {
+			case <-d:
+			case <-time.After(30 * time.Minute): // fake time
+				hung = true
+				cancelA()
+				cancelB()
+				<-d
+			}
+		}
+		synctest.Wait()
+	})
+	blobUploadManager.Delete(dig)
+	if hung {
+		out.Count("shared_joined_push_polled_until_cancelled")
+	}
+	for _, u := range reg.unknown {
+		out.L2("driver-unexpected-request", tag, u)
+	}
+	st := 0
+	if strict {
+		st = 1
+	}
+	cb := 0
+	if s.cancelB {
+		cb = 1
+	}
+	post := s.postEnd
+	if post == "ans" {
+		post = "ans " + c09LShow(s.post)
+	}
+	op := fmt.Sprintf("shared %d %s %s %d %s %s %s %s", st, c09LShow(s.headB), post, cb, c09LShowTries(s.patch), c09LShowTries(s.commit),
+		c09LShow(s.manA), c09LShow(s.manB))
+	res := func(err error) string {
+		if err != nil {
+			return "err"
+		}
+		return "ok"
+	}
+	out.Count("shared_result_A_" + res(errA))
+	out.Count("shared_result_B_" + res(errB))
+	out.Case(op, fmt.Sprintf("A: %s res=%s | B: %s res=%s | T: %s", strings.Join(reg.logA, " "), res(errA), strings.Join(reg.logB, " "), res(errB),
+		strings.Join(reg.logT, " ")))
+	if f, err := os.OpenFile(filepath.Join(zzverif.OutDir(), "tags.txt"), os.O_APPEND|os.O_CREATE|os.O_WRONLY, 0o644); err == nil {
+		fmt.Fprintln(f, tag)
+		f.Close()
+	}
+
+	// L2 on the global request log, for BOTH pushes: a push's manifest request comes only after the
+	// layer was settled with a 2xx — by that push's own HEAD, or by a commit request of the shared
+	// transfer — and a push reports success only if its manifest exchange was sent and ended 2xx.
+	caseLine := tag + " :: " + op
+	ls := "push-legacy-shared log=" + strings.Join(reg.global, " ")
+	status := func(ev string) int {
+		n, _ := strconv.Atoi(ev[strings.LastIndex(ev, ":")+1:])
+		return n
+	}
+	for _, who := range []string{"A", "B"} {
+		firstMan := -1
+		for i, e := range reg.global {
+			if strings.HasPrefix(e, who+":M:") {
+				firstMan = i
+				break
+			}
+		}
+		err := errA
+		if who == "B" {
+			err = errB
+		}
+		if firstMan < 0 {
+			if err == nil {
+				out.L2("push-success-without-manifest", caseLine, "push="+who+" "+ls)
+			}
+			continue
+		}
+		settled, how, letter := false, 0, "h"
+		for _, e := range reg.global[:firstMan] {
+			if strings.HasPrefix(e, who+":L0h:") || strings.HasPrefix(e, "T:L0c:") {
+				how = status(e) // the last such answer counts
+				settled = how/100 == 2
+				letter = "h"
+				if strings.HasPrefix(e, "T:") {
+					letter = "c"
+				}
+			}
+		}
+		switch {
+		case settled:
+		case how != 0 && how < 400 && how != 404:
+			out.L2("push-manifest-after-non-2xx", caseLine, fmt.Sprintf("final-%s-answered=%dxx push=%s status=%d; %s", letter, how/100, who, how, ls))
+		default:
+			out.L2("push-manifest-before-layer-accepted", caseLine, fmt.Sprintf("push=%s sent its manifest but the shared layer was never accepted (last HEAD/commit answer: %d); %s", who, how, ls))
+		}
+		last := ""
+		for _, e := range reg.global {
+			if strings.HasPrefix(e, who+":M:") {
+				last = e
+			}
+		}
+		if err == nil && status(last) >= 400 {
+			out.L2("push-success-after-manifest-error", caseLine, "push="+who+" "+ls)
+		}
+	}
+}
+
+func TestVerifC09LegacyShared(t *testing.T) {
+	out := zzverif.NewOut()
+	defer out.Close()
+	seed := zzverif.Seed()
+	n := zzverif.EnvInt("VERIF_NSHARED", 100)
+	ridx := -1
+	if p := os.Getenv("VERIF_REPLAY"); p != "" {
+		raw, err := os.ReadFile(p)
+		if err != nil {
+			t.Fatal(err)
+		}
+		var k string
+		if _, err := fmt.Sscanf(string(raw), "seed=%d kind=%s idx=%d", &seed, &k, &ridx); err != nil || k != "shared" {
+			t.Fatalf("VERIF_REPLAY: not a shared case header: %q", raw)
+		}
+	}
+	strict := c09ProbeStrict(t)
+	root := zzverif.NewRng(seed).Fork().Fork()
+	base := t.TempDir()
+	for i := 0; i < n; i++ {
+		rng := root.Fork()
+		if ridx >= 0 && i != ridx {
+			continue
+		}
+		dir := filepath.Join(base, fmt.Sprintf("s%d", i))
+		c09SharedCase(t, out, rng, dir, fmt.Sprintf("seed=%d kind=shared idx=%d", seed, i), i, strict)
+		os.RemoveAll(dir)
+		out.Count("cases")
+		out.Count("shared_cases")
+	}
+}
+
+// TestVerifC09SharedCancelCrash runs, in a process of its own, the one scenario the shared driver must
+// not run in-process on a tree with finding F19: the joined push leaves while it is the only waiter
+// (its release() cancels the upload's run context), then the owner's session POST succeeds.
+func TestVerifC09SharedCancelCrash(t *testing.T) {
+	if os.Getenv("VERIF_OUT") == "" {
+		t.Skip("VERIF_OUT not set")
+	}
+	dir := t.TempDir()
+	t.Setenv("OLLAMA_MODELS", dir)
+	opened := c09LResp{202, true}
+	s := &c09ShScript{headB: []c09LResp{{404, false}}, post: []c09LResp{opened}, postEnd: "ans", cancelB: true, patch: [][]c09LResp{{opened}}}
+	dig := c09LegacyBlob(t, dir, []byte("shared-cancel"))
+	m := &Manifest{SchemaVersion: 2, Layers: []Layer{{MediaType: "application/vnd.ollama.image.model", Digest: dig, Size: 13}}}
+	for _, name := range []string{"example.com/library/pa:latest", "example.com/library/pb:latest"} {
+		fp, _ := ParseModelPath(name).GetManifestPath()
+		os.MkdirAll(filepath.Dir(fp), 0o755)
+		mdata, _ := json.Marshal(m)
+		os.WriteFile(fp, mdata, 0o644)
+	}
+	reg := &c09ShReg{s: s}
+	old := http.DefaultTransport
+	http.DefaultTransport = reg
+	defer func() { http.DefaultTransport = old }()
+	var errA, errB error
+	synctest.Test(t, func(t *testing.T) {
+		reg.gate = make(chan string, 1)
+		ctxB, cancelB := context.WithCancel(context.Background())
+		defer cancelB()
+		doneA, doneB := make(chan struct{}), make(chan struct{})
+		go func() {
+			defer close(doneA)
+			errA = PushModel(context.Background(), "example.com/library/pa:latest", &registryOptions{Insecure: true}, func(api.ProgressResponse) {})
+		}()
+		synctest.Wait()
+		go func() {
+			defer close(doneB)
+			errB = PushModel(ctxB, "example.com/library/pb:latest", &registryOptions{Insecure: true}, func(api.ProgressResponse) {})
+		}()
+		synctest.Wait()
+		cancelB()
+		synctest.Wait()
+		reg.gate <- "go"
+		<-doneA
+		<-doneB
+	})
+	blobUploadManager.Delete(dig)
+	for _, e := range reg.global {
+		if strings.Contains(e, ":M:") {
+			t.Errorf("a manifest was sent: %v", reg.global)
+		}
+	}
+	if errA == nil || errB == nil {
+		t.Errorf("errA=%v errB=%v: both pushes must fail", errA, errB)
+	}
+	os.WriteFile(filepath.Join(os.Getenv("VERIF_OUT"), "runcancel.txt"), []byte("safe\n"), 0o644)
 }
